@@ -96,8 +96,21 @@ def correspondence(ctx, violations, known_hits):
             return f"iterations {f['ticks']} exceed executed {f['execs']} + commands {f['cmds']} + 1"
         return None
 
+    # command streams whose BYTES are not UTF-8: every string of up to three bytes over lead bytes of each length, a stray
+    # continuation byte, a letter and a line end, as the first line of the stream, followed by `continue` - the reader must get
+    # past any of them (one character per call, at least one byte per character: C14_utf8_reader_total) and reach the end of input
+    src_b = [ord(c) for c in "add r0 r0 #1\nhalt\n"]
+    bcases, btags = [], []
+    for n in range(1, 4):
+        for tup in itertools.product((0xC3, 0xE9, 0xE2, 0xF0, 0x80, 0x41, 0x0A), repeat=n):
+            stream = list(b"echo " + bytes(tup) + b"\ncontinue\n")
+            nums = [0, 6000, len(src_b)] + src_b + [0, 0, len(stream)] + stream
+            bcases.append("DBGS " + " ".join(f"{v:x}" for v in nums)); btags.append("ill-formed-stream")
     r = dbgcommon.run_dbg_cases(ctx, cases, tags, violations, profiles, aux=AUX, extra=bound,
                                 note="model: every iteration executes an instruction or reads a command (C16_no_spin), so iterations <= executed + commands + 1 (C16_progress)")
+    rb = dbgcommon.run_dbg_cases(ctx, bcases, btags, violations, profiles, aux=AUX, extra=bound, text_too=False,
+                                 note="a command stream holding bytes that are not UTF-8: the reader takes at least one byte per character (C14_utf8_reader_total) and the session reaches the end of input")
+    r["evaluations"] += rb["evaluations"]; r["mismatches"] += rb["mismatches"]
     faults = stdin_faults(ctx, violations)
     r["evaluations"] += faults["sessions"]
     ctx.cleanup()
